@@ -31,7 +31,7 @@ type c07Case struct {
 	NoClientCAs bool `json:"no_client_cas,omitempty"`
 }
 
-var c07Behaviours = []string{"no-cert-msg", "empty", "trusted", "untrusted", "expired", "wrong-eku", "enc-untrusted", "enc-expired", "enc-wrong-eku", "sig-wrong-eku", "cv-omitted", "cv-otherkey", "cv-othertranscript", "cv-corrupt", "cv-second-cert-key", "cv-encleaf-second-cert-key"}
+var c07Behaviours = []string{"no-cert-msg", "empty", "trusted", "untrusted", "expired", "wrong-eku", "enc-untrusted", "enc-expired", "enc-wrong-eku", "sig-wrong-eku", "cv-omitted", "cv-otherkey", "cv-othertranscript", "cv-corrupt", "cv-second-cert-key", "cv-encleaf-second-cert-key", "one-cert"}
 
 // c07Allows: the documented meaning of the six ClientAuthType constants, plus the standard's rule
 // that the ECDHE key exchange needs both client certificates.
@@ -143,6 +143,9 @@ func c07Run(c c07Case) (sig, msg string) {
 			if c.Beh != "empty" {
 				certs = [][]byte{sigC.Certificate[0], encC.Certificate[0]}
 			}
+			if c.Beh == "one-cert" {
+				certs = certs[:1] // the signing certificate only
+			}
 			if err := cp.SendCertificate(certs); err != nil {
 				return err
 			}
@@ -202,6 +205,15 @@ func c07Run(c c07Case) (sig, msg string) {
 	}
 	if r.UHung {
 		return "hang", fmt.Sprintf("server neither completed nor failed (peer: %v)", r.PErr)
+	}
+	if c.Beh == "one-cert" {
+		// a Certificate message with a single certificate: the key agreement of the ECDHE suites needs
+		// the client's encryption certificate, so such a handshake cannot complete there; elsewhere
+		// only "no panic, no hang" (checked above) is asserted
+		if ecdhe && r.UErr == nil {
+			return "policy-table:one-cert", fmt.Sprintf("policy %d, ECDHE suite %x: the server completed although the client sent a single certificate", c.Policy, c.Suite)
+		}
+		return "", ""
 	}
 	judged := c.Beh
 	if c.NoClientCAs && (judged == "trusted" || judged == "expired" || judged == "wrong-eku" || judged == "sig-wrong-eku") {
@@ -476,6 +488,31 @@ func c07EvictionRun(h c07Evict) (sig, msg string, resumed bool) {
 		return "resumed-identity", fmt.Sprintf("client Y presented %d certificates in its full handshake; on its next connection (resumed=%v, server cache capacity %d, earlier sessions of client X evicted) the server reports %d peer certificates that are not Y's", len(yDER), r3.SS.DidResume, h.Cap, len(got)), r3.SS.DidResume
 	}
 	return "", "", r3.SS.DidResume
+}
+
+// C09e: every shape of client reply of the C07 catalogue (certificate lists of unusual length,
+// missing or wrong proofs, foreign messages) against every policy and suite, judged only by C09's
+// clauses: no panic, no hang.
+func TestVF_C09_Shapes(t *testing.T) {
+	rec := vfRec("C09", "C09e-client-reply-shapes", "six client-authentication policies x four suites x the client behaviours of the C07 catalogue (no Certificate message, empty list, one certificate, two, attacker's certificate appended, proofs missing / by another key / over another transcript / corrupted) played by a scripted client; oracle (C09 only): the server neither panics nor hangs; distinct = the case")
+	idx := 0
+	for pol := 0; pol <= 5; pol++ {
+		for _, suite := range vfSuites {
+			for _, beh := range c07Behaviours {
+				idx++
+				if !vfMine(idx) {
+					continue
+				}
+				c := c07Case{Policy: pol, Suite: suite, Beh: beh}
+				sig, msg := c07Run(c)
+				if sig == "panic" || sig == "hang" {
+					rec.Violation(sig, c, "%s", msg)
+				}
+				rec.Eval(true, c, "beh:"+beh)
+			}
+		}
+	}
+	rec.SetExhaustive(true, fmt.Sprintf("%d cases", idx))
 }
 
 func TestVF_C07(t *testing.T) {
